@@ -278,7 +278,9 @@ class Upstream(object):
     def __init__(self):
         self.modes = ['ok']
         self.calls = 0
-        self.lies = []     # bodies sent with an image content type that are not images
+        self.fi_calls = 0
+        self.fi_lied = False
+        self.lies = []     # bodies sent as images that are not the image a standards-following server would send
 
     def mode_for(self, url):
         h = int(hashlib.blake2b(url.encode('utf-8', 'replace'), digest_size=4).hexdigest(), 16)
@@ -304,6 +306,9 @@ class Upstream(object):
         req = args.get('request', '').lower()
         if req in ('getfeatureinfo', 'feature_info'):
             fmt = args.get('info_format', '')
+            self.fi_calls += 1
+            if mode in ('text', 'garbage', 'noct', 'empty', 'html', 'xmlexc'):
+                self.fi_lied = True      # the answer is not of the type that was asked for
             if mode in ('text', 'garbage', 'noct', 'empty'):
                 return FakeResponse(FI_TEXT if mode != 'empty' else b'', 'text/plain' if mode != 'noct' else None)
             if 'json' in fmt:
@@ -336,6 +341,8 @@ class Upstream(object):
         if mode == 'wrongsize':
             w, h = max(1, w // 2 + 3), h + 5
         body, ct = _image_bytes((w, h), fmt)
+        if mode == 'wrongsize':
+            self.lies.append(body)
         if mode == 'garbage':
             body = b'\x00\x01garbage, not an image ' * 20
             self.lies.append(body)
@@ -344,6 +351,7 @@ class Upstream(object):
             self.lies.append(body)
         elif mode == 'empty':
             body = b''
+            self.lies.append(body)
         elif mode == 'noct':
             ct = None
         return FakeResponse(body, ct)
@@ -427,6 +435,8 @@ class Harness(object):
         """-> (wsgicall.Result, reached handler names)"""
         self.upstream.modes = list(case.get('upstream') or ['ok'])
         self.upstream.calls = 0
+        self.upstream.fi_calls = 0
+        self.upstream.fi_lied = False
         self.upstream.lies = []
         del self.reached[:]
         del self.selffetch[:]
@@ -482,10 +492,8 @@ def decoded_path(path):
 
 def header_value(case, name):
     name = name.lower()
-    for k, v in case.get('headers', []):
-        if k.lower() == name:
-            return v
-    return None
+    vals = [wsgicall.to_wire(v) for k, v in case.get('headers', []) if k.lower() == name]
+    return ','.join(vals) if vals else None      # repeated headers are joined, as wsgicall.build_environ does
 
 
 REQ_TYPES = {'getmap': 'getmap', 'map': 'getmap', 'getfeatureinfo': 'getfeatureinfo', 'feature_info': 'getfeatureinfo',
@@ -517,11 +525,12 @@ def request_kind(case):
 
 
 HOSTISH = ('host', 'x-forwarded-host', 'x-forwarded-proto')
+_HOSTILE_HOST_CHARS = r'[<>&"\']'
 
 
 def hostish_hostile(case):
     for k, v in case.get('headers', []):
-        if k.lower() in HOSTISH and re.search(r'[<&"]', v):
+        if k.lower() in HOSTISH and re.search(_HOSTILE_HOST_CHARS, v):
             return True
     return False
 
@@ -532,6 +541,7 @@ _CTL_OR_WIDE = re.compile(r'[\x00-\x1f]|[^\x00-\xff]')
 def exclusions(case):
     """Known-finding constructs present in the request -> list of finding keys (see KNOWN_* below)."""
     seg, rt, p, args = request_kind(case)
+    p0 = decoded_path(case['path'])
     out = []
     if rt == 'getcapabilities' and hostish_hostile(case):
         out.append(SIG_CAPS_HOST)
@@ -541,13 +551,18 @@ def exclusions(case):
             out.append(SIG_HDR_IMGEXC)
         if rt == 'getfeatureinfo' and any(_CTL_OR_WIDE.search(v) for v in args.get('info_format', [])):
             out.append(SIG_HDR_FI)
-    if seg in XML_ERROR_SERVICES and (_XML_ILLEGAL_ESC.search(wsgicall.to_wire(case['path']))
+    if seg in ('service', 'ows', 'wms') and rt == 'getlegendgraphic' and \
+            any(v.split(';')[0].strip().lower() != 'image/png' for v in args.get('format', [])):
+        out.append(SIG_LEGEND_TYPE)
+    raw_seg = (re.match(r'^/(\w+)', p0) or re.match('()', '')).group(1)
+    if (seg in XML_ERROR_SERVICES or raw_seg in XML_ERROR_SERVICES) and (_XML_ILLEGAL_ESC.search(wsgicall.to_wire(case['path']))
                                       or _XML_ILLEGAL_ESC.search(wsgicall.to_wire(case.get('query', '')))):
         out.append(SIG_XML_CTL)
     return out
 
 
 SIG_CAPS_HOST = 'C18/xml/not-well-formed/capabilities/host-header'
+SIG_LEGEND_TYPE = 'C18/image/type-mismatch/wms-legendgraphic'
 SIG_XML_CTL = 'C18/xml/not-well-formed/xml-illegal-control-char-echoed'
 XML_ERROR_SERVICES = ('service', 'ows', 'wms', 'wmts', 'tms')
 #: percent-escapes (and raw forms) of characters that XML 1.0 cannot represent at all
@@ -557,6 +572,23 @@ SIG_HDR_IMGEXC = 'C18/wsgi/bad-header-value/content-type/wms-image-exception-for
 SIG_HDR_FI = 'C18/wsgi/bad-header-value/content-type/wms-featureinfo-info_format'
 
 
+def _replace_param(query, names, fn):
+    """rewrite the values of the named parameters (decoded, case-insensitive names) in a wire-form query string"""
+    parts = []
+    for part in re.split(r'(&)', wsgicall.to_wire(query)):      # '&' only, like urllib.parse.parse_qsl
+        if part == '&':
+            parts.append(part)
+            continue
+        k, eq, v = part.partition('=')
+        kd = unquote_to_bytes(k.replace('+', ' ')).decode('utf-8', 'replace').lower()
+        if kd in names:
+            vd = unquote_to_bytes(v.replace('+', ' ')).decode('utf-8', 'replace')
+            v = quote(fn(vd), safe='/:,;=')
+            eq = '='
+        parts.append(k + eq + v)
+    return ''.join(parts)
+
+
 def sanitize(case, keys):
     """Remove exactly the constructs of the open known findings from a request (generator-side exclusion)."""
     case = dict(case)
@@ -564,33 +596,23 @@ def sanitize(case, keys):
         case['path'] = _XML_ILLEGAL_ESC.sub('_', wsgicall.to_wire(case['path']))
         case['query'] = _XML_ILLEGAL_ESC.sub('_', wsgicall.to_wire(case.get('query', '')))
     if SIG_CAPS_HOST in keys:
-        case['headers'] = [[k, re.sub(r'[<&"]', '_', v) if k.lower() in HOSTISH else v] for k, v in case['headers']]
+        case['headers'] = [[k, re.sub(_HOSTILE_HOST_CHARS, '_', v) if k.lower() in HOSTISH else v] for k, v in case['headers']]
+    if SIG_LEGEND_TYPE in keys:
+        case['query'] = _replace_param(case.get('query', ''), {'format'}, lambda vd: 'image/png')
     if SIG_HDR_IMGEXC in keys or SIG_HDR_FI in keys:
         names = set()
         if SIG_HDR_IMGEXC in keys:
             names.add('format')
         if SIG_HDR_FI in keys:
             names.add('info_format')
-        parts = []
-        for part in wsgicall.to_wire(case.get('query', '')).split('&'):
-            k, eq, v = part.partition('=')
-            try:
-                kd = unquote_to_bytes(k.replace('+', ' ')).decode('utf-8', 'replace').lower()
-            except ValueError:
-                kd = k.lower()
-            if kd in names:
-                vd = unquote_to_bytes(v.replace('+', ' ')).decode('utf-8', 'replace')
-                v = quote(_CTL_OR_WIDE.sub('_', vd), safe='/:,;= ')
-                v = v.replace(' ', '%20')
-            parts.append(k + eq + v)
-        case['query'] = '&'.join(parts)
+        case['query'] = _replace_param(case.get('query', ''), names, lambda vd: _CTL_OR_WIDE.sub('_', vd))
     return case
 
 
 def plain_int(values):
     if values is None or len(values) != 1:
         return None
-    if re.match(r'^[0-9]{1,5}$', values[0]):
+    if re.match(r'^[0-9]{1,5}$', values[0]) and int(values[0]) >= 1:
         return int(values[0])
     return None
 
@@ -697,8 +719,11 @@ def judge(case, res, reached, h, st_):
                 out.append((sig('image', 'undecodable', where), '200 %s response does not decode: %s' % (ct, str(e)[:100])))
             if img is not None:
                 actual = PIL_MIME.get(img.format, 'image/' + str(img.format).lower())
-                if actual != ct:
-                    out.append((sig('image', 'type-mismatch', '%s-declared-%s' % (actual.split('/')[1], ct.split('/')[1][:12]), where),
+                if actual != ct and rt == 'getlegendgraphic' and reached and reached[0] in ('service', 'ows', 'wms'):
+                    out.append((SIG_LEGEND_TYPE, 'GetLegendGraphic answer declared %s but the body is %s' % (ct, actual)))
+                elif actual != ct and not any(r in ('header-value-ctl', 'header-not-latin1') for r, _ in res.problems):
+                    out.append((sig('image', 'type-mismatch', '%s-declared-%s' % (actual.split('/')[1],
+                                                                               re.sub(r'[^a-z0-9.+-]', '_', ct.split('/')[1][:12])), where),
                                 'declared %s but the body is %s' % (ct, actual)))
                 exp = expected_image_size(case) if rt != 'getlegendgraphic' else None
                 if exp is None:
@@ -711,6 +736,11 @@ def judge(case, res, reached, h, st_):
                     st_.append('image:size-judged')
                     if img.size != exp:
                         out.append((sig('image', 'size', where), 'image is %r, requested %r' % (img.size, exp)))
+    # 5. feature info passed through from an upstream that answered with another type than asked for
+    elif res.code == 200 and h.upstream.fi_calls and h.upstream.fi_lied:
+        st_.append('featureinfo:upstream-lie-passed-through')
+        for code, msg in markup.check_html(body):
+            out.append((sig(code, where), 'feature info answer (status %s): %s' % (res.code, msg)))
     # 5. XML
     elif ('xml' in ct or ct == 'application/vnd.ogc.gml') and body.strip() and res.code not in (204, 304):
         kind, findings = markup.check_xml(body)
@@ -1162,6 +1192,25 @@ def cases(draw):
 # check / run / replay
 
 
+_OPEN = None
+
+
+def open_signatures():
+    """open known findings of C18, read once per process (other builders rewrite their files concurrently)"""
+    global _OPEN
+    if _OPEN is None:
+        for attempt in range(5):
+            try:
+                _OPEN = core.open_signatures(PROPERTY)
+                break
+            except ValueError:
+                import time
+                time.sleep(0.5)
+        else:
+            _OPEN = core.open_signatures(PROPERTY)
+    return _OPEN
+
+
 def case_key(case):
     return [case.get('method', 'GET'), case['path'], case.get('query', ''), case.get('headers', []),
             case.get('upstream', ['ok'])]
@@ -1173,7 +1222,7 @@ def evaluate(case, stats, h=None, apply_exclusions=True):
     case = dict(case)
     tags = list(case.pop('tags', []) or [])
     if apply_exclusions:
-        open_sigs = core.open_signatures(PROPERTY)
+        open_sigs = open_signatures()
         keys = [k for k in exclusions(case) if k in open_sigs]
         if keys:
             for k in keys:
@@ -1239,3 +1288,212 @@ def replay(case, stats):
         return evaluate(case, stats, apply_exclusions=False)
     finally:
         close_harness()
+
+
+# ------------------------------------------------------------------------------------------------
+# generator (b): atheris coverage-guided campaign on (path, query, headers) bytes  (thorough tier)
+#
+# Input format (bytes, decoded latin-1 per PEP 3333):   <path>?<query> \n Header-Name: value \n ... \n !mode,mode
+# The target normalises what no gateway would deliver (raw control characters / spaces in the query string are
+# percent-encoded, control characters in header values dropped, header names restricted to token characters),
+# skips inputs with WIDTH/HEIGHT above 3000 px and applies the same known-finding exclusions as the grammar.
+
+FUZZ_DICT = ['SERVICE=WMS', 'SERVICE=WMTS', 'REQUEST=GetMap', 'REQUEST=GetFeatureInfo', 'REQUEST=GetCapabilities',
+             'REQUEST=GetLegendGraphic', 'REQUEST=GetTile', 'REQUEST=map', 'REQUEST=capabilities', 'REQUEST=feature_info',
+             'VERSION=1.1.1', 'VERSION=1.3.0', 'VERSION=1.1.0', 'VERSION=1.0.0', 'WMTVER=1.0.0', 'LAYERS=', 'LAYER=', 'STYLES=',
+             'STYLE=', 'SRS=EPSG:4326', 'CRS=EPSG:4326', 'SRS=EPSG:3857', 'SRS=EPSG:25832', 'BBOX=0,0,10,10', 'WIDTH=64', 'HEIGHT=64',
+             'FORMAT=image/png', 'FORMAT=image/jpeg', 'FORMAT=image/gif', 'FORMAT=image/tiff', 'TRANSPARENT=true',
+             'BGCOLOR=0xff00ff', 'EXCEPTIONS=inimage', 'EXCEPTIONS=blank', 'EXCEPTIONS=application/vnd.ogc.se_xml', 'TIME=2020-01-01',
+             'ELEVATION=1000', 'DIM_FOO=1', 'TILED=true', 'QUERY_LAYERS=', 'X=1', 'Y=1', 'I=1', 'J=1', 'INFO_FORMAT=text/xml',
+             'INFO_FORMAT=text/html', 'INFO_FORMAT=application/json', 'INFOFORMAT=application/json', 'FEATURE_COUNT=1',
+             'TILEMATRIXSET=GLOBAL_WEBMERCATOR', 'TILEMATRIXSET=small', 'TILEMATRIX=0', 'TILEROW=0', 'TILECOL=0', 'SLD_VERSION=1.1.0',
+             'SCALE=1000', 'origin=nw', 'wms_layer=', 'tms_layer=', 'wmts_layer=', 'wms_capabilities', 'wmsc_capabilities',
+             'wmts_capabilities_kvp', 'wmts_capabilities', 'tms_capabilities', 'type=external', 'srs=', 'format=',
+             '/service', '/ows', '/wms', '/wmts/', '/tms/1.0.0/', '/tiles/', '/kml/', '/demo/', '/demo/static/', '/1.0.0/WMTSCapabilities.xml',
+             'GLOBAL_WEBMERCATOR', 'GLOBAL_GEODETIC', 'GLOBAL_MERCATOR', 'small', 'default', '/0/0/0.png', '/1/0/0.jpeg', '.kml',
+             '.geojson', '.html', '.gml', 'X-Forwarded-Host: ', 'X-Forwarded-Proto: ', 'X-Script-Name: /', 'Host: ',
+             'If-None-Match: ', 'If-Modified-Since: ', 'Accept: ', '\n', '&', '=', '%00', '%0d%0a', '%3C', '%22', '%26', '%27', '%FF',
+             '!ok', '!noconn', '!text', '!garbage', '!http500', '!xmlexc', '!truncated'] + WMS_LAYERS + \
+            [quote(m_, safe='') for m_ in markup.MARKERS] + markup.MARKERS
+
+FUZZ_SEEDS = [
+    '/service?SERVICE=WMS&VERSION=1.1.1&REQUEST=GetMap&LAYERS=direct&STYLES=&SRS=EPSG:4326&BBOX=0,0,10,10&WIDTH=64&HEIGHT=64&FORMAT=image/png',
+    '/service?SERVICE=WMS&VERSION=1.3.0&REQUEST=GetMap&LAYERS=cached,dims&STYLES=&CRS=EPSG:3857&BBOX=0,0,1000000,1000000&WIDTH=64&HEIGHT=64&FORMAT=image/jpeg&EXCEPTIONS=inimage&TIME=2020-01-01\nX-Forwarded-Host: proxy.example\n!ok,noconn',
+    '/service?SERVICE=WMS&VERSION=1.1.1&REQUEST=GetFeatureInfo&LAYERS=direct&QUERY_LAYERS=direct&STYLES=&SRS=EPSG:4326&BBOX=0,0,10,10&WIDTH=64&HEIGHT=64&FORMAT=image/png&X=1&Y=1&INFO_FORMAT=text/xml',
+    '/service?SERVICE=WMS&REQUEST=GetCapabilities\nX-Forwarded-Proto: https\nX-Script-Name: /proxy',
+    '/service?WMTVER=1.0.0&REQUEST=capabilities', '/service?SERVICE=WMS&VERSION=1.1.1&REQUEST=GetLegendGraphic&LAYER=direct&FORMAT=image/png',
+    '/service?SERVICE=WMTS&REQUEST=GetTile&VERSION=1.0.0&LAYER=cached&STYLE=&TILEMATRIXSET=GLOBAL_WEBMERCATOR&TILEMATRIX=1&TILEROW=0&TILECOL=0&FORMAT=image/png',
+    '/service?SERVICE=WMTS&REQUEST=GetFeatureInfo&VERSION=1.0.0&LAYER=cached&STYLE=&TILEMATRIXSET=GLOBAL_WEBMERCATOR&TILEMATRIX=1&TILEROW=0&TILECOL=0&FORMAT=image/png&INFOFORMAT=application/json&I=1&J=1',
+    '/wmts/1.0.0/WMTSCapabilities.xml', '/wmts/dims/GLOBAL_WEBMERCATOR/2020-01-01/0/1/0/0.png', '/wmts/cached/GLOBAL_WEBMERCATOR/default/default/1/0/0/5/5.geojson',
+    '/tms/1.0.0/', '/tms/1.0.0/cached/GLOBAL_WEBMERCATOR', '/tms/1.0.0/geo/GLOBAL_GEODETIC/1/0/0.jpeg\nIf-None-Match: x', '/tiles/tiled/GLOBAL_MERCATOR/1/0/0.png?origin=nw\n!garbage',
+    '/kml/cached/GLOBAL_WEBMERCATOR', '/kml/cached/GLOBAL_WEBMERCATOR/1/0/0.kml', '/kml/grp_b/small/0/0/0.png',
+    '/demo/', '/demo/?wms_layer=direct&srs=EPSG:4326&format=image/png', '/demo/?tms_layer=cached&srs=EPSG:3857&format=png',
+    '/demo/?wmts_layer=cached&srs=EPSG:3857&format=png', '/demo/?wms_capabilities&type=external\nX-Forwarded-Host: a.example',
+    '/demo/?tms_capabilities&layer=cached&srs=EPSG900913', '/demo/static/site.css', '/', '/nothing',
+]
+
+
+def fuzz_input_to_case(data):
+    text = data.decode('latin-1')
+    lines = text.split('\n')
+    url = lines[0]
+    path, _, query = url.partition('?')
+    query = re.sub(r'[\x00-\x20\x7f]', lambda m_: '%%%02X' % ord(m_.group(0)), query)
+    path = re.sub(r'[\x00-\x20\x7f?#]', lambda m_: '%%%02X' % ord(m_.group(0)), path)
+    if not path.startswith('/'):
+        path = '/' + path
+    headers, upstream = [], ['ok']
+    for ln in lines[1:8]:
+        if ln.startswith('!'):
+            ms = [x for x in ln[1:].split(',') if x in UPSTREAM_MODES]
+            if ms:
+                upstream = ms[:3]
+            continue
+        name, sep, value = ln.partition(':')
+        if not sep or not re.match(r'^[A-Za-z][A-Za-z0-9-]{0,40}$', name):
+            continue
+        if name.lower() in ('content-length', 'transfer-encoding'):
+            continue
+        headers.append([name, re.sub(r'[\x00-\x1f\x7f]', '', value).strip()])
+    return {'method': 'GET', 'path': path, 'query': query, 'headers': headers, 'upstream': upstream, 'fw': True}
+
+
+def fuzz_oversized(case):
+    for k, vs in decoded_args(case['query']).items():
+        if k in ('width', 'height'):
+            for v in vs + [','.join(vs)]:
+                try:
+                    f = float(v)
+                except (ValueError, OverflowError):
+                    continue
+                if f != f or f > 3000:
+                    return True
+    return False
+
+
+def fuzz_main(argv):
+    """child process: python -m vcheck.props.c18_wellformed --fuzz <workdir> <index> <libfuzzer args...>"""
+    import pickle
+    workdir, index = argv[0], int(argv[1])
+    try:
+        import atheris
+    except Exception as e:     # noqa - reported to the parent through the exit code
+        print('ATHERIS-UNAVAILABLE %r' % (e,))
+        sys.exit(3)
+    with atheris.instrument_imports(include=['mapproxy'], enable_loader_override=False):
+        h = harness()
+    st_ = core.Stats()
+    crash_dir = os.path.join(workdir, 'crashes')
+    os.makedirs(crash_dir, exist_ok=True)
+    seen = set()
+    state = {'n': 0}
+
+    def dump():
+        tmp = os.path.join(workdir, 'stats_%d.pkl.tmp' % index)
+        with open(tmp, 'wb') as f:
+            pickle.dump(st_, f)
+        os.replace(tmp, os.path.join(workdir, 'stats_%d.pkl' % index))
+
+    def one_input(data):
+        state['n'] += 1
+        if len(data) > 4096:
+            return
+        case = fuzz_input_to_case(data)
+        if fuzz_oversized(case):
+            st_.excluded['atheris-input-over-3000px'] += 1
+            return
+        case['tags'] = ['atheris']
+        for v in evaluate(case, st_, h):
+            if v.signature not in seen:
+                seen.add(v.signature)
+                with open(os.path.join(crash_dir, '%d-%s.json' % (index, core.case_hash(v.signature))), 'w') as f:
+                    json.dump(v.as_dict(), f)
+        if state['n'] % 500 == 0:
+            dump()
+
+    import atexit
+    atexit.register(dump)
+    atexit.register(close_harness)
+    atheris.Setup([sys.argv[0]] + list(argv[2:]), one_input)
+    atheris.Fuzz()
+
+
+def fuzz_campaign(seed, stats, workers=None, runs=None):
+    import pickle
+    workers = workers or min(14, int(os.environ.get('VERIF_PROCS', '16')))
+    runs = runs or int(os.environ.get('C18_FUZZ_RUNS', '60000'))
+    from .. import VERIF_DIR
+    deps = os.path.join(VERIF_DIR, '.deps')
+    work = tempfile.mkdtemp(prefix='c18-fuzz-')
+    try:
+        with open(os.path.join(work, 'dict.txt'), 'w') as f:
+            for i, tok in enumerate(FUZZ_DICT):
+                if tok:
+                    f.write('kw%d="%s"\n' % (i, ''.join(c if (32 <= ord(c) < 127 and c not in '"\\') else '\\x%02x' % ord(c)
+                                                       for c in tok.encode('utf-8').decode('latin-1'))))
+        procs = []
+        for i in range(workers):
+            corpus = os.path.join(work, 'corpus_%d' % i)
+            os.makedirs(corpus)
+            if i % 2 == 0:      # even workers: seeded corpus, odd workers: empty corpus (dictionary only)
+                for j, s in enumerate(FUZZ_SEEDS):
+                    with open(os.path.join(corpus, 'seed_%d' % j), 'wb') as f:
+                        f.write(s.encode('latin-1'))
+            env = dict(os.environ)
+            env['PYTHONPATH'] = os.pathsep.join([deps, VERIF_DIR] + ([env['PYTHONPATH']] if env.get('PYTHONPATH') else []))
+            env['PYTHONHASHSEED'] = '0'
+            cmd = [sys.executable, '-m', 'vcheck.props.c18_wellformed', '--fuzz', work, str(i),
+                   '-seed=%d' % (core.derive_seed(seed, 'atheris', i) % (2 ** 31 - 1) + 1), '-runs=%d' % runs, '-max_len=2048',
+                   '-dict=' + os.path.join(work, 'dict.txt'), '-timeout=120', '-rss_limit_mb=4096', '-print_final_stats=1',
+                   '-artifact_prefix=' + os.path.join(work, 'artifact_%d_' % i), corpus]
+            log = open(os.path.join(work, 'log_%d.txt' % i), 'wb')
+            procs.append((subprocess.Popen(cmd, cwd=VERIF_DIR, env=env, stdout=log, stderr=subprocess.STDOUT), log, i))
+        unavailable = False
+        for p, log, i in procs:
+            rc = p.wait()
+            log.close()
+            with open(os.path.join(work, 'log_%d.txt' % i), 'rb') as f:
+                tail = f.read()[-3000:].decode('latin-1')
+            if rc == 3 and 'ATHERIS-UNAVAILABLE' in tail:
+                unavailable = True
+                continue
+            if rc != 0:
+                # libFuzzer-level crash / timeout / OOM of the harness process: not a verdict about the property
+                stats.inconclusive['atheris-worker-exit-%d' % rc] += 1
+                stats.extra.setdefault('atheris_worker_log_tails', []).append(tail[-600:])
+            m_ = re.search(r'stat::number_of_executed_units:\s*(\d+)', tail)
+            if m_:
+                stats.extra['atheris_executions'] = stats.extra.get('atheris_executions', 0) + int(m_.group(1))
+            sp = os.path.join(work, 'stats_%d.pkl' % i)
+            if os.path.exists(sp):
+                with open(sp, 'rb') as f:
+                    stats.merge(pickle.load(f))
+        if unavailable:
+            stats.notes['atheris not importable (PYTHONPATH=/verif/.deps): byte campaign skipped'] += 1
+            return
+        stats.notes['atheris-campaign: %d workers x %d runs' % (workers, runs)] += 1
+        # saved crashing inputs -> confirmed by deterministic re-execution in this process -> replay files
+        cdir = os.path.join(work, 'crashes')
+        done = set()
+        try:
+            for name in sorted(os.listdir(cdir)) if os.path.isdir(cdir) else []:
+                with open(os.path.join(cdir, name)) as f:
+                    rec = json.load(f)
+                if rec['signature'] in done:
+                    continue
+                vs = evaluate(rec['case'], core.Stats(), apply_exclusions=False)
+                hit = [v for v in vs if v.signature == rec['signature']] or vs
+                if hit:
+                    done.add(rec['signature'])
+                    stats.violations.append(hit[0])
+                else:
+                    stats.inconclusive['atheris-finding-not-reproduced'] += 1
+        finally:
+            close_harness()
+    finally:
+        shutil.rmtree(work, ignore_errors=True)
+
+
+if __name__ == '__main__':
+    if len(sys.argv) > 2 and sys.argv[1] == '--fuzz':
+        fuzz_main(sys.argv[2:])
